@@ -226,6 +226,13 @@ def collect(
         return Table(df)
 
     # TODO: keep_hidden_cols option
+    for uid in table._cache.partition_by:
+        if uid not in table._cache.uuid_to_name:
+            raise ValueError(
+                f"cannot collect: the grouping column `{table._cache.cols[uid].ast_repr()}` is not "
+                "selected any more (it was dropped, de-selected or overwritten after `group_by`)\n"
+                "hint: `ungroup` the table first or keep the grouping columns selected."
+            )
 
     assert len(table) == len(table._cache.name_to_uuid)
 
